@@ -55,10 +55,13 @@ type Action struct {
 }
 
 type Case struct {
-	ViewBox [4]ops.F32  `json:"viewbox"`
-	Palette ops.Palette `json:"palette"`
-	Rect    [4]int      `json:"rect"`
-	Actions []Action    `json:"actions"`
+	// ZeroValueEncoders (default viewBox and palette only): the Encoders of the byte pipelines are
+	// never Reset before the first call.
+	ZeroValueEncoders bool        `json:"zero_value_encoders,omitempty"`
+	ViewBox           [4]ops.F32  `json:"viewbox"`
+	Palette           ops.Palette `json:"palette"`
+	Rect              [4]int      `json:"rect"`
+	Actions           []Action    `json:"actions"`
 }
 
 func (s StopSpec) stop() generate.GradientStop {
@@ -229,6 +232,9 @@ func checkPipelines(c Case) error {
 	var mg generate.Generator
 	mg.SetDestination(model)
 	for _, p := range ps {
+		if c.ZeroValueEncoders && p.enc != nil {
+			continue // a zero-value Encoder is as good as one Reset with the default metadata
+		}
 		p.g.Reset(vb, [64]color.RGBA(c.Palette))
 	}
 	mg.Reset(vb, [64]color.RGBA(c.Palette))
@@ -442,6 +448,10 @@ func TestPipelines(t *testing.T) {
 		c.Rect = [4]int{rapid.IntRange(0, 9).Draw(t, "x0"), rapid.IntRange(0, 9).Draw(t, "y0"), rapid.SampledFrom([]int{16, 64, 100}).Draw(t, "w"), rapid.SampledFrom([]int{16, 64, 77}).Draw(t, "h")}
 		n := rapid.IntRange(20, 60).Draw(t, "steps")
 		labels := map[string]bool{}
+		if c.ViewBox == [4]ops.F32{-32, -32, 32, 32} && c.Palette == ops.DefaultPalette() && rapid.Bool().Draw(t, "zeroenc") {
+			c.ZeroValueEncoders = true
+			labels["encoders-never-reset-before-the-first-call"] = true
+		}
 		model := &ops.Recorder{}
 		sinceIncr := false
 		for i := 0; i < n; i++ {
@@ -460,6 +470,18 @@ func TestPipelines(t *testing.T) {
 					}
 					labels["same-value-written-again"] = true
 				}
+			}
+			if rapid.IntRange(0, 19).Draw(t, "spelledlike") == 0 {
+				// two number-register writes of which the second is spelled exactly like the operand
+				// bytes of the first: k/15120 in the two-byte zero-to-one form is (4k+1, k>>6), and
+				// bytes a8+adj, 2v are "NREG[NSEL-adj] = v"
+				adj := rapid.IntRange(1, 6).Draw(t, "sl.adj")
+				v := rapid.IntRange(0, 60).Draw(t, "sl.v")
+				k := (2*v)<<6 | (0xa8+adj)>>2
+				first := Action{K: "nreg", Adj: uint8(rapid.IntRange(0, 6).Draw(t, "sl.adj0")), F: []ops.F32{ops.F32(float32(k) / 15120)}}
+				c.Actions = append(c.Actions, first)
+				a = Action{K: "nreg", Adj: uint8(adj), F: []ops.F32{ops.F32(float32(v))}}
+				labels["instruction-spelled-like-the-previous-operand"] = true
 			}
 			c.Actions = append(c.Actions, a)
 			switch a.K {
